@@ -428,22 +428,25 @@ class Check:
                 self.broken[-1]["fragment_divergence"] = div
                 self.notes["fragment_divergence"] = div
             return False
-        # Print Assumptions output: one block per theorem, in order
-        blocks = re.split(r"(?=Closed under the global context|Axioms:)", out)
+        # Print Assumptions output: "Closed under the global context" or an "Axioms:" block whose
+        # entries start at column 0 (`name : type`, the type possibly continued on indented lines)
         axioms = set()
         closed = 0
-        for b in blocks:
-            if b.startswith("Closed under the global context"):
+        in_ax = False
+        for ln in out.split("\n"):
+            if ln.startswith("Closed under the global context"):
                 closed += 1
-            elif b.startswith("Axioms:"):
-                for ln in b.split("\n")[1:]:
-                    # an entry starts at column 0 with the axiom's name; its type may continue on
-                    # indented lines (the ':' is not always on the first line)
-                    m = re.match(r"^([A-Za-z_][\w\.']*)(?:\s|:|$)", ln)
-                    # Print Assumptions prints qualified names (Classical_Prop.classic, SB3V.Model.X.ax):
-                    # unqualified words at column 0 are make / warning chatter
-                    if m and "." in m.group(1).strip(".") and not m.group(1).endswith(".v") and not m.group(1).endswith(".vo"):
-                        axioms.add(m.group(1))
+                in_ax = False
+            elif ln.startswith("Axioms:"):
+                in_ax = True
+            elif in_ax:
+                if ln[:1] in (" ", "\t") or ln == "":
+                    continue
+                m = re.match(r"^([A-Za-z_][\w\.']*)\s*(?::|$)", ln)
+                if m:
+                    axioms.add(m.group(1))
+                else:
+                    in_ax = False
         n_pa = len(re.findall(r"Closed under the global context|Axioms:", out))
         self.notes["print_assumptions"] = {"theorems_checked": n_pa, "closed": closed, "axioms": sorted(axioms)}
         bad = sorted(a for a in axioms if a not in STDLIB_AXIOMS_ALLOWED and not a.startswith(("Uint63.", "PrimInt63.", "PrimFloat.", "FloatAxioms.", "Float", "PArray", "Sint63")))
